@@ -22,3 +22,12 @@ package rt
 //@   ensures txt(result) == txt(buf)
 //@   ensures forall j int :: (0 <= j && j < len(buf)) ==> result[j] == old(buf[j])
 //@   ensures forall lo int, n int :: { subtxt(result, lo, n) } (0 <= lo && 0 <= n && lo + n <= len(buf)) ==> subtxt(result, lo, n) == old(subtxt(buf, lo, n))
+
+// GuardSlice: as GuardSlice2, in place.
+//@ func GuardSlice props C05,C06
+//@   requires buf != nil && 0 <= n && n <= 281474976710656
+//@   modifies *buf
+//@   ensures len(*buf) == old(len(*buf)) && cap(*buf) - len(*buf) >= n
+//@   ensures base(*buf) == old(base(*buf)) || fresh(*buf)
+//@   ensures base(*buf) == old(base(*buf)) ==> same(*buf, old(*buf))
+//@   ensures forall j int :: (0 <= j && j < len(*buf)) ==> (*buf)[j] == old((*buf)[j])
